@@ -727,7 +727,7 @@ func init() {
 			res.Report(c, "MailboxMon")
 			c.Add("traces_validated_against_impl", int64(res.Validated))
 		}
-		asCheck(c, asPlan{prop: "C03", monitors: []string{"FateMon"}, mc: t3, gen: g3, ops: append(append([][2]string{}, asOpsBasic...), asOpsStash...), directed: asStashBatches,
+		asCheck(c, asPlan{prop: "C03", monitors: []string{"FateMon"}, mc: t3, gen: g3, ops: append(append([][2]string{{"dlnop", ""}, {"dlnop", ""}}, asOpsBasic...), asOpsStash...), directed: asStashBatches,
 			vias: []string{"", "", "clone", "parsed", "held", "held"},
 			rule: base + "Judged by FateMon."})
 	})
